@@ -51,7 +51,7 @@ Proof.
     rewrite log_bytes_app in Hsz. cbn [log_bytes fold_right] in Hsz.
     split.
     + constructor; cbn [s_start s_log s_idx s_lastpos s_acc].
-      * apply aligned_app; [exact Hal | cbn [i_pos fst snd]; rewrite Hpos; lia | | cbn [i_ts snd]; exact Hts].
+      * apply aligned_app; [exact Hal | cbn [i_pos fst snd]; rewrite Hpos; lia | | cbn [i_ts snd b_msgs b]; exact Hts].
         cbn [i_off fst b_msgs b]. rewrite Hacur. apply u32_small. lia.
       * rewrite log_bytes_app. cbn [log_bytes fold_right]. rewrite Hpos. rewrite u32_small by lia. lia.
       * rewrite log_bytes_app. cbn [log_bytes fold_right]. lia.
@@ -76,7 +76,9 @@ Proof.
     intros a1 Ha1 Hne1. injection Ha1 as <-. cbn [a_base a_cur a_ts a_msgs] in *.
     destruct (last_opt_some_ne ms Hne) as [lm Elm]. rewrite Elm.
     assert (Hlast : forall pre, lastoff (pre ++ ms) 0 = m_off lm) by (intros pre; rewrite lastoff_app by exact Hne; unfold lastoff; rewrite Elm; reflexivity).
-    split; [|split; [symmetry; apply Hlast | rewrite Ems in Elm; rewrite (number_last_ts _ _ _ _ Elm); exact Hnow]].
+    assert (Hts2 : m_ts lm = lastts (a_msgs (match s_acc s with Some a => a | None => acc_new (match ms with m :: _ => m_off m | [] => 0 end) end) ++ ms)).
+    { unfold lastts. destruct (last_opt_split _ _ Elm) as [ms0 Ems0]. rewrite Ems0, app_assoc, last_opt_app. reflexivity. }
+    split; [|split; [symmetry; apply Hlast | split; [rewrite Ems in Elm; rewrite (number_last_ts _ _ _ _ Elm); exact Hnow | exact Hts2]]].
     destruct (s_acc s) as [a|] eqn:Ea.
     + destruct (a_msgs a) as [|x xr] eqn:Ex; [cbn [app]; destruct ms; [contradiction | reflexivity]|].
       rewrite <- Ex. assert (Hx : a_msgs a <> []) by (rewrite Ex; discriminate). rewrite firstoff_app by exact Hx. apply (Hacc a eq_refl Hx).
